@@ -407,7 +407,8 @@ def run_enum(spec):
         obj, kind = make_obj(desc)
         ref = EVAL[kind](obj, pseed) + "|" + type_sig(obj, kind)
         ck.dg.add("ref", ref)
-        path = ROOT + "/a" + EXT[fmt]
+        stem = ["/a", "/model.v2", "/cider.0.3", "/m.yaml.bak", "/x.joblib.old"][derive("stem", json.dumps(desc, sort_keys=True)) % 5]
+        path = ROOT + stem + EXT[fmt]
         other = ROOT + "/other" + EXT[fmt]
         rp = {"property": PROP, "engine": "fsim", "case": spec}
         S = lambda w: site(kind, fmt, w)  # noqa: E731
@@ -637,6 +638,7 @@ HIST_OBJS = [
     {"obj": "model", "settings": "sdmxg1", "ev": "rbf", "mode": "POL", "version": 1},
     {"obj": "model", "settings": "nldf_k", "ev": "spline+rbf", "mode": "SEP", "version": 2},
     {"obj": "model", "settings": "nldf_i_l1", "ev": "linear", "mode": "SEP", "version": 1},
+    {"obj": "model", "settings": "sdmxfull", "ev": "rbf", "mode": "SEP", "version": 1},
 ]
 
 
@@ -683,7 +685,7 @@ def exec_history(hist, spec):
             ob = objs[op["obj"]]
             kind, fmt = ob["kind"], ob["fmt"]
             # one path namespace per (path index); extension follows the object's format
-            path = "%s/p%d%s" % (ROOT, op["path"], EXT[fmt])
+            path = "%s/%s%s" % (ROOT, ["p0", "run.1.p1", "p2.v3.final"][op["path"] % 3], EXT[fmt])
             c = op["op"]
             ck.stats["op_" + c] += 1
             ck.dg.add(c, op["obj"], op["path"])
@@ -869,6 +871,8 @@ MODEL_GRID = [
     ("sdmx1", "spline+rbf", "NPOL", 1),
     ("sdmxg1", "rbf", "POL", 2),
     ("nldf_j_sdmx", "kernel", "SEP", 1),
+    ("sdmxfull", "rbf", "SEP", 1),
+    ("sdmxfull", "linear", "NPOL", 1),
 ]
 
 
